@@ -24,8 +24,10 @@ namespace RotoV.ValueSpec
 inductive Val where
   | int (i : Int)
   | str (s : String)
-  /-- an opaque leaf (float, char, Asn, IpAddr, Prefix): identified by the text the host prints -/
-  | opq (hex : String)
+  /-- an opaque leaf (float, char, Asn, IpAddr, Prefix): `hex` is the text the host prints,
+      `key` is what `==` compares — the same text for all but floats, where `0.0` and `-0.0`
+      print differently and are equal (IEEE), and a NaN (key `nan`) equals nothing -/
+  | opq (hex : String) (key : String)
   | unit
   | recd (fs : Array Val)
   | enm (tag : Nat) (fs : Array Val)
@@ -35,7 +37,7 @@ inductive Val where
 inductive Expr where
   | lit (i : Int)
   | str (s : String)
-  | opq (hex : String)
+  | opq (hex : String) (key : String)
   | unit
   | var (i : Nat)
   | fld (k : Nat) (e : Expr)
@@ -56,6 +58,9 @@ inductive Expr where
   | ite (c a b : Expr)
   /-- `{ let t = x; t.path = f; t }` -/
   | block (path : Array Nat) (x f : Expr)
+  /-- `stale_k(l)`: a NEW one-element list `[l.get(l.len())]`, i.e. `[None]`, built by a helper
+      whose `l.get(i)` result variable held `Some(l[i])` on the iterations before -/
+  | staleNone (l : Expr)
   deriving Inhabited
 
 mutual
@@ -70,6 +75,8 @@ inductive Stmt where
   | match_ (e : Expr) (arms : Array Arm)
   | for_ (x : Nat) (l : Expr) (body : Array Stmt)
   | iflt (e : Expr) (bound : Int) (a b : Array Stmt)
+  /-- a host call without a value the script can observe (`paint_stack(n)`) -/
+  | nop
 end
 
 instance : Inhabited Stmt := ⟨.emit .unit⟩
@@ -93,12 +100,15 @@ def setVar (i : Nat) (v : Val) : M Unit := modify fun s =>
 partial def valEq (heap : Array (Array Val)) : Val → Val → Bool
   | .int a, .int b => a == b
   | .str a, .str b => a == b
-  | .opq a, .opq b => a == b
+  | .opq _ a, .opq _ b => a == b && a != "6e616e" -- (the keys arrive hex-encoded: `nan`)
   | .unit, .unit => true
   | .recd a, .recd b => a.size == b.size && (List.range a.size).all fun i => valEq heap a[i]! b[i]!
   | .enm t a, .enm u b =>
     t == u && a.size == b.size && (List.range a.size).all fun i => valEq heap a[i]! b[i]!
   | .list a, .list b =>
+    -- one storage is equal to itself (`Arc::ptr_eq`; `list_eq_structural` of Props/C02); this
+    -- only differs from the element-wise reading for a list that holds a NaN
+    if a == b then true else
     let x := heap[a]!
     let y := heap[b]!
     x.size == y.size && (List.range x.size).all fun i => valEq heap x[i]! y[i]!
@@ -113,7 +123,7 @@ def hexStr (s : String) : String := String.join (s.toUTF8.toList.map hexByte)
 partial def flatten (heap : Array (Array Val)) : Val → Array String
   | .int i => #[s!"i:{i}"]
   | .str s => #[s!"s:{hexStr s}"]
-  | .opq h => #[s!"o:{h}"]
+  | .opq h _ => #[s!"o:{h}"]
   | .unit => #["u"]
   | .recd fs => fs.foldl (fun acc v => acc ++ flatten heap v) #[]
   | .enm t fs => fs.foldl (fun acc v => acc ++ flatten heap v) #[s!"t:{t}"]
@@ -137,7 +147,7 @@ partial def update (v : Val) (path : List Nat) (nv : Val) : Val :=
 partial def eval : Expr → M Val
   | .lit i => pure (.int i)
   | .str s => pure (.str s)
-  | .opq h => pure (.opq h)
+  | .opq h k => pure (.opq h k)
   | .unit => pure .unit
   | .var i => do
     let s ← get
@@ -222,6 +232,13 @@ partial def eval : Expr → M Val
       let xs := (← get).heap[h]!
       if i < xs.size then pure (.enm 0 #[xs[i]!]) else pure (.enm 1 #[])
     | _ => do stuck "get on a non-list"; pure .unit
+  | .staleNone l => do
+    match ← eval l with
+    | .list _ =>
+      let s ← get
+      set { s with heap := s.heap.push #[.enm 1 #[]] }
+      pure (.list s.heap.size)
+    | _ => do stuck "stale on a non-list"; pure .unit
 
 mutual
 partial def exec : Stmt → M Unit
@@ -259,6 +276,7 @@ partial def exec : Stmt → M Unit
     match ← eval e with
     | .int n => if n < bound then execBlock a else execBlock b
     | _ => stuck "if on a non-int"
+  | .nop => pure ()
 partial def execBlock (ss : Array Stmt) : M Unit := do
   for s in ss do
     exec s
@@ -340,7 +358,13 @@ partial def pExpr : P Expr := do
     | some s => pure (.str s)
     | none => failure
   | "U" => pure .unit
-  | "O" => pure (.opq (← tok))
+  | "O" => do
+    let h ← tok
+    pure (.opq h h)
+  | "O2" => do
+    let h ← tok
+    pure (.opq h (← tok))
+  | "W" => pure (.staleNone (← pExpr))
   | "V" => pure (.var (← nat))
   | "F" => do
     let k ← nat
@@ -436,6 +460,7 @@ partial def pStmt : P Stmt := do
     let b ← int
     let a ← pBlock
     pure (.iflt e b a (← pBlock))
+  | "nop" => pure .nop
   | _ => failure
 end
 
